@@ -14,6 +14,9 @@ ASSUMPTIONS = ["signatures present are non-malleable (ground-truth table)"]
 def gen_case(rng, root, force=None):
     n = rng.choice([2, 2, 3])
     ch = scen.gen_chain(rng, root, n_steps=n, n_insp=rng.choice([0, 1]), thresholds=(1,), max_funcs=1)
+    if rng.random() < 0.2:
+        # a step whose name is the empty string is a step like any other (its link says so in its signed content)
+        ch.steps[rng.randrange(n)]["name"] = ""
     pool = [k for k in W.pool() if k not in ch.owners]
     shared = rng.choice(pool)
     second = rng.choice([k for k in pool if k is not shared])
